@@ -11,7 +11,7 @@ import ast
 from typing import Any, Dict, List, Optional, Tuple
 
 from .consteval import CallVal, ConstEval, Sym
-from .core import AnalysisError, ap, src
+from .core import AnalysisError, ap, match_as_if, src
 
 
 class Outcome:
@@ -24,6 +24,8 @@ class Outcome:
 def run_block(ev: ConstEval, stmts: List[ast.stmt], env: Dict[str, Any],
               ignore_calls=("debug", "info", "warning", "error", "exception", "log")) -> Outcome:
     for st in stmts:
+        if isinstance(st, ast.Match):
+            st = match_as_if(st) or st
         if isinstance(st, ast.If):
             t = ev.ev(st.test, env)
             if isinstance(t, (Sym, CallVal)):
